@@ -532,7 +532,17 @@ int vnadata_convert(const vnadata_t *vdp_in, vnadata_t *vdp_out,
 	    return -1;
 	}
 	vnadata_set_frequency_vector(vdp_out, vdp_in->vd_frequency_vector);
-	if (!(vdip_in->vdi_flags & VF_PER_F_Z0)) {
+
+	/*
+	 * Copy the reference impedances.  The output never has more ports
+	 * than the input except when a matrix without ports is converted
+	 * to the 1 x 0 Zin vector; the input then has no impedances to
+	 * copy and the output keeps its defaults.
+	 */
+	if (MAX(new_rows, new_columns) >
+		MAX(vdp_in->vd_rows, vdp_in->vd_columns)) {
+	    /*EMPTY*/
+	} else if (!(vdip_in->vdi_flags & VF_PER_F_Z0)) {
 	    if (vnadata_set_z0_vector(vdp_out, vdip_in->vdi_z0_vector) == -1) {
 		return -1;
 	    }
